@@ -9,9 +9,12 @@ NOTES = ("Model-based verification with explicit TLA+ specifications (spec/), TL
          "their replay file; tool errors exit 2 with ERROR.")
 
 import json, os, glob
+# properties whose check has been reviewed and is claimed
+READY = ["C07", "C09"]
 CHECKS = {}
 for _f in sorted(glob.glob(os.path.join(os.path.dirname(os.path.dirname(os.path.abspath(__file__))), "manifest.d", "C*.json"))):
-    CHECKS[os.path.basename(_f)[:-5]] = json.load(open(_f))
+    if os.path.basename(_f)[:-5] in READY:
+        CHECKS[os.path.basename(_f)[:-5]] = json.load(open(_f))
 
 NOT_APPLICABLE = {
  "C01": "check not built yet (planned: Lifecycle.tla + replay_lifecycle); not claimed in this revision",
